@@ -575,6 +575,64 @@ def exhaustive():
                 for c1 in range(3):
                     h.emit(f"goto {l0} {c0}", "goto"); h.emit(f"move {l1 - l0} {c1 - c0}", "move"); g += 1
     dist["exhaustive:goto+move"] = g
+    # pause + resume, then every rectangle x offset on a 3x3 screen, for the DECRPM replies 0 / 1 / 3 of mode 69
+    # (the scroll after the resume relies on DECLRMM being what the driver takes it for)
+    u = 0
+    for reply in (0, 1, 3):
+        cases = []
+        L, C = 3, 3
+        for t in range(L):
+            for b in range(t + 1, L + 1):
+                for l in range(C):
+                    for r in range(l + 1, C + 1):
+                        nl, nc = b - t, r - l
+                        for d in range(-(nl - 1), nl):
+                            for rt in range(-(nc - 1), nc):
+                                if d or rt:
+                                    cases.append((t, l, nl, nc, d, rt))
+        for i in range(0, len(cases), 6):
+            h = Hist(L, C, reply, 0, 0)
+            if (i // 6) % 2:
+                h.emit("setpen bg=%d rv=%d" % (i % 16, (i // 12) % 2), "setpen")
+            for cs in cases[i:i + 6]:
+                h.fill()
+                h.emit("pause", "pause"); h.emit("resume", "resume")
+                h.emit("scroll %d %d %d %d %d %d" % cs, "scroll"); u += 1
+    dist["exhaustive:suspend-scroll"] = u
+    # every formatted length 0..200, unbuffered and through output buffers around the stack-buffer size
+    f = 0
+    for bufsize in (0, 1, 63, 64, 65, 128):
+        for base in range(0, 201, 15):
+            h = Hist(3, 210, 1, 0, 0)
+            if bufsize:
+                h.emit(f"outbuf {bufsize}", "outbuf")
+            for n in range(base, min(base + 15, 201)):
+                h.emit(f"goto {n % 3} {n % 5}", "goto")
+                if n % 4 == 3 and n >= 3:
+                    h.emit("printf " + "".join("%02x" % (0x21 + (n + j) % 94) for j in range(n - 2)) + " 47", "printf")
+                else:
+                    h.emit("printf " + ("".join("%02x" % (0x21 + (n + j) % 94) for j in range(n)) or "-"), "printf")
+                h.emit("erasech 1 1", "erasech"); f += 1
+                if bufsize:
+                    h.emit("flush", "flush")
+    dist["exhaustive:printf-length"] = f
+    # output buffers of 1..14 bytes x texts of 1..12 columns on a 2x12 screen, with a goto, a goto + erasech or a
+    # goto + pen change pending in the buffer when the text is written
+    w = 0
+    for N in range(1, 15):
+        for pend in range(3):
+            h = Hist(2, 12, 1, 0, 0)
+            h.emit(f"outbuf {N}", "outbuf")
+            for k in range(1, 13):
+                col = (k * 5 + N) % (12 - k + 1)
+                h.emit(f"goto {k % 2} {col}", "goto")
+                if pend == 1 and col + 1 <= 12:
+                    h.emit("erasech 1 0", "erasech")
+                if pend == 2:
+                    h.emit(f"chpen bg={(k + N) % 8}", "chpen")
+                h.emit(("printf " if (k + N) % 3 == 0 else "print ") + "".join("%02x" % (0x41 + (k + j) % 26) for j in range(k)), "print")
+                h.emit("flush", "flush"); w += 1
+    dist["exhaustive:outbuf-order"] = w
 
 
 if a.tier == "exhaustive":
@@ -599,5 +657,5 @@ else:
 open(a.out, "w").write("\n".join(lines) + "\n")
 info = {"ops": len(lines), "histories": dist["hist"], "distribution": dict(sorted(dist.items()))}
 if a.tier == "exhaustive":
-    info["exhaustive_bound"] = "all rectangles x in-range offsets on 4x5 and 3x3 screens x 8 capability combinations; all erasech (col,count,moveend,reverse) on 2x5; all goto/move on 3x3; every rectangle x offset on 3x3 for the DECRPM replies 0/1/3/4 of mode 69; scroll + resize (2x3->2x4, 2x4->2x3, 2x3->3x3, 3x2->2x4) + every rectangle x non-zero offset at the new size, with and without DECSLRM (the known-finding triggers excluded: they are probed from corpus/C09)"
+    info["exhaustive_bound"] = "all rectangles x in-range offsets on 4x5 and 3x3 screens x 8 capability combinations; all erasech (col,count,moveend,reverse) on 2x5; all goto/move on 3x3; every rectangle x offset on 3x3 for the DECRPM replies 0/1/3/4 of mode 69; scroll + resize (2x3->2x4, 2x4->2x3, 2x3->3x3, 3x2->2x4) + every rectangle x non-zero offset at the new size, with and without DECSLRM; pause + resume + every rectangle x non-zero offset on 3x3 for the replies 0/1/3; printf of every formatted length 0..200 unbuffered and through buffers of 1/63/64/65/128 bytes; output buffers of 1..14 bytes x texts of 1..12 columns x three kinds of request pending in the buffer (the known-finding triggers excluded: they are probed from corpus/C09)"
 print(json.dumps(info))
